@@ -43,6 +43,11 @@ type monitors struct {
 	nodeTerm     map[string]map[int64]int64   // node -> shard -> last observed term
 	deleted      map[string]map[int64]bool    // node -> shard -> DeleteShard seen since the last observation
 	delCall      map[string]int64             // DeleteShard call id -> shard
+	hunted       map[int64]int                // shard -> leaders cut off so far (directed schedule)
+	ackers       map[string]map[string]bool    // shard/offset/term -> followers that acknowledged that entry to a sender holding it
+	ledger       map[int64]map[int64]commitRec // shard -> offset -> what was first applied there as committed
+	ledgerSeen   map[string]appliedMark        // node/shard -> how far that node's applied prefix is in the ledger
+	ledgerLeaders map[string]bool              // node/shard/term -> leader log compared with the ledger
 	snapPending  map[string]map[int64]string  // node -> shard -> SendSnapshot stream delivered and not (yet) answered with a SnapshotResponse
 	blReq        map[string]*proto.BecomeLeaderRequest
 	blResp       map[string]map[string]*proto.EntryId // BecomeLeader call id -> NewTerm responders known at send time
@@ -80,7 +85,7 @@ type leadEv struct {
 func newMonitors(c *chaos) *monitors {
 	return &monitors{c: c, storedTerm: map[int64]int64{}, storedMeta: map[int64]model.ShardMetadata{}, sentTermMax: map[int64]int64{},
 		ntReq: map[string]*proto.NewTermRequest{}, ntPreTerm: map[string]int64{}, ntResp: map[int64]map[int64]map[string]*proto.EntryId{},
-		leadersSeen: map[int64]map[int64]string{}, nodeTerm: map[string]map[int64]int64{}, deleted: map[string]map[int64]bool{}, snapPending: map[string]map[int64]string{}, delCall: map[string]int64{}, blReq: map[string]*proto.BecomeLeaderRequest{}, blResp: map[string]map[string]*proto.EntryId{},
+		leadersSeen: map[int64]map[int64]string{}, nodeTerm: map[string]map[int64]int64{}, deleted: map[string]map[int64]bool{}, snapPending: map[string]map[int64]string{}, delCall: map[string]int64{}, hunted: map[int64]int{}, ledger: map[int64]map[int64]commitRec{}, ackers: map[string]map[string]bool{}, ledgerSeen: map[string]appliedMark{}, ledgerLeaders: map[string]bool{}, blReq: map[string]*proto.BecomeLeaderRequest{}, blResp: map[string]map[string]*proto.EntryId{},
 		fences: map[string]map[int64]*fenceInfo{}, streamTerm: map[string]int64{}, streamShard: map[string]int64{},
 		tagTerm: map[string]int64{}, checkedLeaders: map[string]bool{},
 		appliedSeen: map[string]appliedMark{}, ackedOK: map[string]bool{}, electionNote: map[int64]map[int64]string{}, headBelow: map[int64]map[int64][]string{}, fenceStamp: map[int64]map[int64]int64{}, leadAt: map[string]map[int64][]leadEv{}}
@@ -319,19 +324,13 @@ func (m *monitors) checkTruncate(t *TapMsg, req *proto.TruncateRequest) {
 		}
 	}
 	cut := req.HeadEntryId.Offset
-	if applied <= cut {
+	if applied < 0 {
 		return
-	}
-	termAt := func(w wal.Wal, off int64) int64 {
-		ents, err := readLog(w, off-1)
-		if err != nil || len(ents) == 0 || ents[0].Offset != off {
-			return -1
-		}
-		return ents[0].Term
 	}
 	// the first applied offset at which the leader holds a *different* entry than the follower; a leader
 	// that no longer has those offsets in its log (trimmed, or itself built from a snapshot) re-sends a
-	// snapshot, which is not a divergence
+	// snapshot, which is not a divergence.  Offsets above the cut are about to be removed, offsets at or
+	// below it are kept and built upon: a difference is a violation either way.
 	var lw wal.Wal
 	if ln != nil && !ln.EP.Dead() && ln.Server != nil {
 		if lv, ok := ln.Server.SimShardView(req.Shard); ok {
@@ -341,14 +340,28 @@ func (m *monitors) checkTruncate(t *TapMsg, req *proto.TruncateRequest) {
 	if lw == nil {
 		return
 	}
+	terms := func(w wal.Wal) map[int64]int64 {
+		out := map[int64]int64{}
+		if ents, err := readLog(w, -1); err == nil {
+			for _, e := range ents {
+				if e.Offset > applied {
+					break
+				}
+				out[e.Offset] = e.Term
+			}
+		}
+		return out
+	}
+	ft, lt := terms(fv.Wal), terms(lw)
 	at, tf, tl := int64(-1), int64(-1), int64(-1)
-	for off := cut + 1; off <= applied; off++ {
-		a, b := termAt(fv.Wal, off), termAt(lw, off)
-		if a < 0 {
+	for off := int64(0); off <= applied; off++ {
+		a, okA := ft[off]
+		b, okB := lt[off]
+		if !okA {
 			continue
 		}
-		if b < 0 {
-			if off > lw.LastOffset() && lw.LastOffset() >= lw.FirstOffset() && lw.FirstOffset() <= cut+1 {
+		if !okB {
+			if off > cut && off > lw.LastOffset() && lw.LastOffset() >= lw.FirstOffset() && lw.FirstOffset() <= cut+1 {
 				// the leader's log ends before an entry the follower has applied as committed
 				at, tf, tl = off, a, -1
 				break
@@ -394,6 +407,11 @@ func (m *monitors) checkTruncate(t *TapMsg, req *proto.TruncateRequest) {
 		note = " (" + x + ")"
 	}
 	note += m.electionFactsLocked(req.Shard, req.Term)
+	if at <= cut {
+		m.fail("C03", "committed-prefix-differs-from-leader", "leader %s (term %d) tells follower %s to keep its log of shard %d up to offset %d and builds on it, but among the entries the follower has applied as committed (up to offset %d) the two logs differ: %s; follower log %s, leader log %s%s",
+			t.Src, req.Term, t.Dst, req.Shard, cut, applied, why, termsOf(fv.Wal), termsOf(lw), note)
+		return
+	}
 	m.fail("C03", "committed-entries-truncated", "leader %s (term %d) tells follower %s to truncate shard %d to offset %d although the follower has applied entries up to offset %d as committed: %s; follower log %s%s",
 		t.Src, req.Term, t.Dst, req.Shard, cut, applied, why, termsOf(fv.Wal), note)
 }
@@ -536,6 +554,21 @@ func (m *monitors) checkAck(t *TapMsg, ack *proto.Ack) {
 		if errA == nil && errB == nil && len(a) > 0 && len(b) > 0 && a[0].Offset == ack.Offset && b[0].Offset == ack.Offset &&
 			a[0].Term == b[0].Term && string(a[0].Value) == string(b[0].Value) {
 			m.ackedOK[fmt.Sprintf("%s/%d/%d/t%d", follower, shard, ack.Offset, a[0].Term)] = true
+			// an entry that the sender and enough followers hold durably is committed in effect, whether
+			// or not the sender has processed the acknowledgements yet: it goes into the commit ledger
+			k := fmt.Sprintf("%d/%d/t%d", shard, ack.Offset, a[0].Term)
+			if m.ackers[k] == nil {
+				m.ackers[k] = map[string]bool{}
+			}
+			m.ackers[k][follower] = true
+			if len(m.ackers[k])+1 >= int(m.c.o.RF)/2+1 && sterm >= 0 {
+				if m.ledger[shard] == nil {
+					m.ledger[shard] = map[int64]commitRec{}
+				}
+				if _, ok := m.ledger[shard][ack.Offset]; !ok {
+					m.ledger[shard][ack.Offset] = commitRec{term: a[0].Term, inTerm: sterm, by: fmt.Sprintf("%s together with its leader %s (acknowledged by a quorum)", follower, leader)}
+				}
+			}
 		}
 	}
 	if !ok1 || !ok2 || fv.Wal == nil || lv.Wal == nil || !lv.IsLeader || lv.Term != sterm {
@@ -811,6 +844,7 @@ func (m *monitors) afterEvent() {
 	w := m.c.w
 	for s := int64(0); s < int64(m.c.o.Shards); s++ {
 		views := w.ShardViews(s)
+		m.ledgerStep(s, views)
 		// C03: what a follower applies as committed is what the leader of its term holds at that offset
 		var leadV *shardView
 		leadN := ""
@@ -880,6 +914,10 @@ func (m *monitors) afterEvent() {
 					m.checkedLeaders[key] = true
 					m.c.r.Count("leaders_installed", 1)
 					m.checkContainment(s, name, v, "when it became leader")
+					if m.hunted[s] < m.c.o.LeaderHunt {
+						m.hunted[s]++
+						m.c.huntLeader(name, s, v.Term)
+					}
 				}
 			}
 			// C04 (ii): a fenced node's log does not grow until a term >= T touches it
@@ -893,6 +931,112 @@ func (m *monitors) afterEvent() {
 				}
 			}
 		}
+	}
+}
+
+func (m *monitors) replacedAtElection(name string, s int64, v *shardView, off, term int64, rec commitRec) {
+	why := ""
+	if rec.term < term && term < rec.inTerm {
+		why = "; an entry of an older term that a later leader committed by replication alone is replaced by a never-committed entry of a term in between (the new leader won on its higher head term)"
+	}
+	note := ""
+	if x := m.electionNote[s][v.Term]; x != "" {
+		note = " (" + x + ")"
+	}
+	m.fail("C03", "committed-entry-replaced-at-election", "%s, installed as leader of shard %d in term %d, holds at offset %d an entry of term %d, but %s had applied an entry of term %d at that offset as committed while in term %d%s; leader log %s%s",
+		name, s, v.Term, off, term, rec.by, rec.term, rec.inTerm, why, termsOf(v.Wal), note+m.electionFactsLocked(s, v.Term))
+}
+
+type commitRec struct {
+	term, inTerm int64
+	by           string
+}
+
+// ledgerStep keeps a shard-wide ledger of what any node has applied as committed (offset -> term of the
+// entry, and the term the node was in when it did) and checks against it (C03: "any two replicas agree on
+// every entry at or below either one's commit offset"):
+//   - a node applies, as committed, an entry that differs from the ledger's          -> conflicting-commit
+//   - a node is installed as leader with a log that differs from the ledger (checked before that leader's
+//     own commits enter the ledger, so that the election is named, not its consequences)
+//                                                                                      -> committed-entry-replaced-at-election
+// mu held.
+func (m *monitors) ledgerStep(s int64, views map[string]*shardView) {
+	if m.ledger[s] == nil {
+		m.ledger[s] = map[int64]commitRec{}
+	}
+	led := m.ledger[s]
+	var names []string
+	for n := range views {
+		names = append(names, n)
+	}
+	sort.Strings(names)
+	for _, name := range names {
+		v := views[name]
+		if v.Wal == nil || !v.IsLeader || v.Status != int32(proto.ServingStatus_LEADER) {
+			continue
+		}
+		key := fmt.Sprintf("%s/%d/%d", name, s, v.Term)
+		if m.ledgerLeaders[key] {
+			continue
+		}
+		m.ledgerLeaders[key] = true
+		m.c.r.Count("leader_logs_checked_against_commit_ledger", 1)
+		ents, err := readLog(v.Wal, -1)
+		if err != nil {
+			continue
+		}
+		for _, e := range ents {
+			rec, ok := led[e.Offset]
+			if !ok || rec.term == e.Term {
+				continue
+			}
+			m.replacedAtElection(name, s, v, e.Offset, e.Term, rec)
+			return
+		}
+	}
+	for _, name := range names {
+		v := views[name]
+		if v.Wal == nil || v.CommitOffset < 0 {
+			continue
+		}
+		key := fmt.Sprintf("%s/%d", name, s)
+		inc := 0
+		if sn := m.c.w.Node(name); sn != nil {
+			inc = sn.EP.Inc
+		}
+		from := int64(-1)
+		if prev, seen := m.ledgerSeen[key]; seen && prev.inc == inc && v.CommitOffset >= prev.off {
+			from = prev.off
+		}
+		if v.CommitOffset == from {
+			continue
+		}
+		m.ledgerSeen[key] = appliedMark{inc, v.CommitOffset}
+		ents, err := readLog(v.Wal, from)
+		if err != nil {
+			continue
+		}
+		for _, e := range ents {
+			if e.Offset > v.CommitOffset {
+				break
+			}
+			rec, ok := led[e.Offset]
+			if !ok {
+				led[e.Offset] = commitRec{term: e.Term, inTerm: v.Term, by: name}
+				continue
+			}
+			if rec.term != e.Term && v.IsLeader {
+				// a leader that commits its own (older) entries while BecomeLeader is still running
+				m.replacedAtElection(name, s, v, e.Offset, e.Term, rec)
+				return
+			}
+			if rec.term != e.Term {
+				m.fail("C03", "conflicting-commit", "%s has applied offset %d of shard %d as committed with an entry of term %d (while in term %d), but %s had applied an entry of term %d at that offset as committed while in term %d; log of %s: %s%s",
+					name, e.Offset, s, e.Term, v.Term, rec.by, rec.term, rec.inTerm, name, termsOf(v.Wal), m.electionFactsLocked(s, -1))
+				return
+			}
+		}
+		m.c.r.Count("commit_ledger_rounds", 1)
 	}
 }
 
